@@ -207,6 +207,8 @@ int main(int argc, char **argv)
         c.eval();
         c.count(0);
         std::string o1, o2;
+        o1.reserve(64); // the harness's own strings must not move the allocation count between the two measurements
+        o2.reserve(64);
         run_prog(p, o1); // first run warms every lazily built global (tables, caches)
         long long l1 = g_live;
         run_prog(p, o2);
